@@ -332,6 +332,20 @@ func c20kinds() []*c20kind {
 	return ks
 }
 
+// schemaWith returns the kind's registered schema carrying a per-registration tag (as logicalType),
+// so that a stale schema from an earlier registration is distinguishable.
+func (k *c20kind) schemaWith(tag string) string {
+	switch k.name {
+	case "CSlice":
+		return `{"type":"array","logicalType":"` + tag + `","items":"long"}`
+	case "CStruct":
+		return `{"type":"record","logicalType":"` + tag + `","name":"cstruct","fields":[{"name":"a","type":"long"},{"name":"b","type":"string"}]}`
+	case "CNullable":
+		return `["null",{"type":"long","logicalType":"` + tag + `"}]`
+	}
+	return `{"type":` + k.schema + `,"logicalType":"` + tag + `"}`
+}
+
 type c20codec struct {
 	id   int
 	k    *c20kind
@@ -381,6 +395,7 @@ type c20model struct {
 	writes int // expected custom Write calls
 	// zeroWrites: writes of the zero value for nil pointers (not matched by a Read of a non-nil value)
 	zeroWrites int
+	regSchema  string // the most recently registered schema JSON
 }
 
 // expectedSchema per the documented mapping with the registered schema R for X.
@@ -388,7 +403,7 @@ func (m *c20model) schemaFor(rt reflect.Type, omit bool) *refavro.Schema {
 	var s *refavro.Schema
 	switch {
 	case rt == m.k.rt:
-		s, _ = refavro.ParseSchema([]byte(m.k.schema))
+		s, _ = refavro.ParseSchema([]byte(m.regSchema))
 	case rt.Kind() == reflect.Int64:
 		s = &refavro.Schema{Type: "long"}
 	case rt.Kind() == reflect.String:
@@ -679,22 +694,38 @@ func runC20(c *core.Ctx, i int) {
 	c20curLog = log
 	// registration order scenarios: re-register 1..3 times, schema before/after codec
 	nreg := 1 + r.IntN(3)
-	rs, _ := avro.SchemaFromString(k.schema)
 	var latest int
 	order := r.IntN(3)
-	if order == 0 {
+	// the registered schema changes with every registration (tagged), the last one must be emitted
+	curSchema := ""
+	regSchema := func() {
+		c20gen++
+		curSchema = k.schemaWith(fmt.Sprintf("reg-%d", c20gen))
+		rs, err := avro.SchemaFromString(curSchema)
+		if err != nil {
+			c.Violate("harness", "registered schema does not parse: "+err.Error(), nil)
+		}
 		avro.RegisterSchema(k.rt, rs)
+		c.Count("schema-registrations", 1)
+	}
+	if order == 0 {
+		regSchema()
 	}
 	for g := 0; g < nreg; g++ {
 		c20gen++
 		latest = c20gen
 		c20register(k, latest)
-		if order == 1 && g == 0 {
-			avro.RegisterSchema(k.rt, rs)
+		if order == 1 {
+			regSchema()
 		}
 	}
-	if order == 2 {
-		avro.RegisterSchema(k.rt, rs)
+	if order == 2 || curSchema == "" {
+		regSchema()
+	}
+	if r.IntN(2) == 0 {
+		// generate the holder's schema, then register a newer schema for the type: the next generation must see it
+		lib.SchemaFor(k.holder)
+		regSchema()
 	}
 	c.Journal(c.CurCase(), fmt.Sprintf("%s registrations=%d order=%d", k.name, nreg, order))
 	// values
@@ -709,7 +740,7 @@ func runC20(c *core.Ctx, i int) {
 	var buf bytes.Buffer
 	sess, err := k.session(&buf, comp, []int{0, 64, 1 << 20}[r.IntN(3)])
 	c.Eval(1)
-	rep := map[string]any{"type": k.name, "registered_schema": k.schema}
+	rep := map[string]any{"type": k.name, "registered_schema": curSchema}
 	if err != nil {
 		c.Violate("encoder", fmt.Sprintf("NewEncoderFor[holder[%s]] failed: %v", k.name, err), rep)
 		return
@@ -746,7 +777,7 @@ func runC20(c *core.Ctx, i int) {
 		c.Violate("invalid-file", fmt.Sprintf("%s: reference reader rejects the file: %v", k.name, perr), rep)
 		return
 	}
-	m := &c20model{k: k}
+	m := &c20model{k: k, regSchema: curSchema}
 	want := stripAll(m.schemaFor(k.holder, false))
 	if d := refavro.Diff(stripAll(cont.Schema), want, "schema"); d != "" {
 		c.Violate("schema-position", fmt.Sprintf("%s: schema emitted differs from (documented mapping + registered schema): %s\n got %s", k.name, d, cont.SchemaJSON), rep)
